@@ -19,6 +19,14 @@ if ! cargo build --release --features wasmhook >"$ROOT/work/build-$ID.log" 2>&1;
   fi
   echo "NOTE: the engine hooks do not build against this tree; $ID runs on a harness built without them" >&2
 fi
+# thorough tier: the coverage-guided stage needs the libFuzzer target (nightly toolchain; no sanitizer).  A failure to build
+# it is not a verdict and does not stop the other stages: the stage is then reported as skipped in the evidence.
+if [ "$TIER" = "thorough" ] || [ -n "$VERIF_FUZZ_RUNS" ]; then
+  if ! ( cd "$ROOT/harness/fuzz" && cargo +nightly fuzz build -s none --fuzz-dir . stream >"$ROOT/work/build-fuzz-$ID.log" 2>&1 ); then
+    echo "NOTE: the libFuzzer target did not build (see $ROOT/work/build-fuzz-$ID.log); the coverage-guided stage is skipped" >&2
+    rm -f "$ROOT/harness/fuzz/target/x86_64-unknown-linux-gnu/release/stream"
+  fi
+fi
 cd "$ROOT"
 if [ "$1" = "--replay" ]; then
   exec "$ROOT/harness/target/release/beffv" replay "$ID" "$2"
